@@ -140,6 +140,7 @@ type HarnessResult struct {
 	Truncated    bool              `json:"truncated"`
 	EndReasons   map[string]int    `json:"end_reasons"`
 	Notes        map[string]string `json:"notes,omitempty"`
+	Forks        map[string]int    `json:"forks_by_kind"`
 }
 
 type workItem struct {
@@ -237,6 +238,7 @@ func (e *Explorer) exploreSubtree(id int, fn *ssa.Function, solver *Solver, item
 	prefix := item.prefix
 	var trail []trailRec
 	forced := append([]int{}, prefix...)
+	keep := 0 // number of leading decisions shared with the previous path of this worker
 	for {
 		if atomic.LoadInt32(&e.stopped) != 0 || time.Now().After(e.deadline) || (e.maxExec > 0 && atomic.LoadInt64(&e.execCount) >= e.maxExec) {
 			e.mu.Lock()
@@ -248,6 +250,7 @@ func (e *Explorer) exploreSubtree(id int, fn *ssa.Function, solver *Solver, item
 		m.forced = forced
 		m.trail = trail
 		m.base = len(prefix)
+		m.keep = keep
 		e.runOne(m, fn)
 		trail = m.trail
 		forced = m.forced
@@ -291,6 +294,7 @@ func (e *Explorer) exploreSubtree(id int, fn *ssa.Function, solver *Solver, item
 		for _, t := range trail {
 			forced = append(forced, t.opts[t.idx])
 		}
+		keep = len(forced) - 1
 	}
 }
 
@@ -310,6 +314,7 @@ func (e *Explorer) newMachine(solver *Solver, covers map[string]bool) *Machine {
 	m.trace = e.trace
 	m.params = e.params
 	m.pinned = e.pinned
+	m.kindStats = map[string]int{}
 	m.resetSched()
 	m.tickers = map[*Value]*Timer{}
 	m.builders = map[*Value]*Str{}
@@ -320,7 +325,8 @@ func (e *Explorer) newMachine(solver *Solver, covers map[string]bool) *Machine {
 }
 
 func (e *Explorer) runOne(m *Machine, fn *ssa.Function) {
-	m.solver.Reset()
+	m.solver.ResetTo(m.keep)
+	m.keep = m.solver.depth
 	g0 := m.newG("main", nil)
 	g0.fn = func() {
 		m.call(nil, 0, fn, nil)
@@ -400,6 +406,12 @@ func (e *Explorer) merge(m *Machine) {
 	}
 	for k, v := range m.stubsSeen {
 		r.Stubs[k] += v
+	}
+	if r.Forks == nil {
+		r.Forks = map[string]int{}
+	}
+	for k, v := range m.kindStats {
+		r.Forks[k] += v
 	}
 	for _, rc := range m.races {
 		dup := false
